@@ -18,7 +18,7 @@ MANIFEST = dict(
          "for pipelines of any length and any numbering of the fresh ids; (iii) on the mirror of compile_relation_instance (Model.CteOrder): "
          "table_refs_are_defined_earlier (for every ranked structure of relation bodies, any prefer_cte / allow_ctes flags and any nesting of "
          "sub-queries and CTEs, a relation is referenced by name only if it is a database table or a CTE already pushed to the WITH list - "
-         "hence defined earlier than the CTE containing the reference). Ties: the recorded nesting of every compilation is replayed through "
+         "hence defined earlier than the CTE containing the reference), no_relation_is_defined_twice (the WITH list has no repetition, for any structure). Ties: the recorded nesting of every compilation is replayed through "
          "Model.CteOrder (reference by name / sub-query / CTE pushed, in order); every call of extract_atomic "
          "made while compiling the corpus is recorded (cargo feature verif) and replayed through the Lean mirror - rest / missing / "
          "Select / kept transforms / fresh ids / redirected pipeline must agree exactly - and the executable scope predicates are "
@@ -150,7 +150,7 @@ def run(ctx):
     br = vlib.standard_proof_obligations(ctx, ["PrqlModel.Props.C07"], ["Dialects"],
         required_theorems=["fetch_needs_offset_and_order", "limit_xor_fetch", "fetch_dialects", "clauses_select_range", "takes_emitted_correctly",
                             "split_scope_closed", "missing_provided_by_preceding", "anchored_block_closed", "split_closed_monitor",
-                            "preceding_is_wellformed", "table_refs_are_defined_earlier"])
+                            "preceding_is_wellformed", "table_refs_are_defined_earlier", "no_relation_is_defined_twice"])
     ctx.rule = ("(i) take chains x {sorted, unsorted} x 12 dialects: LIMIT/OFFSET/FETCH/ORDER BY filler of the real SQL vs the Lean clause "
                 "mirror; (ii) every accepted program of the corpus x 12 dialects parsed with sqlparser's dialect grammar (one statement); "
                 "(iii) generated relational programs executed on SQLite (sqlite and generic targets); a case = (program, dialect); "
